@@ -90,7 +90,7 @@ CHECKS = {
         text=("Lean theorems for both engines: a dict whose tag key holds K's tag is loaded by K's loader for every position of K in the Union and any other members (dispatch on the tag alone); dump-then-load through the Union gives back the member instance for every member of the round-trip fragment on both engines (C13_roundtrip_tagged, C13_v1_roundtrip_tagged); unassigned / missing tags give ParseError; the tag key is known (never unknown, never captured), also when an init=False attribute mirrors it (v1); dump appends the tag under the configured key; models tied to the code over families, tag keys, argument rotations, container positions, load-before-any-dump streams on both engines"),
         technique='Lean 4 proof over hand models of both engines + differential correspondence', ref='4 C13'),
     'C14': dict(
-        text=('Lean theorems: every failing load of a v1 class - any JSON input, any field loaders - ends in a library error (induction over the field list + constructor step, finish step, nested classes), innermost attribution kept, inner errors pass, error lattice regenerated from errors.py; model tied to the code on malformed streams comparing (type, class_name, field_name / missing / unknown); oracle: isinstance JSONWizardError, str(e) returns (incl. missing AliasPath keys in nested classes), independent path-based attribution for scalar positions'),
+        text=('Lean theorems: every failing load of a v1 class - any JSON input, any field loaders - ends in a library error (induction over the field list + constructor step, finish step, nested classes), innermost attribution kept, inner errors pass, error lattice regenerated from errors.py; attribution at the level of documents (C14_v1_error_origin: a failing load of a dict document is either the failure of ONE constructor field loader on the value found under the key of that field, re-attributed by the handler of this class - (class, field) when the inner error names nothing yet, the inner names otherwise - or an UnknownKeysError / MissingFields of the last step naming this class; induction over the generated field loop); model tied to the code on malformed streams comparing (type, class_name, field_name / missing / unknown); oracle: isinstance JSONWizardError, str(e) returns (incl. missing AliasPath keys in nested classes), independent path-based attribution for scalar positions'),
         technique='Lean 4 proof over a hand model + generated lattice + differential correspondence', ref='4 C14'),
     'C15': dict(
         text=("Lean theorems: repr-quoting of spliced text reads back as exactly that text for every string (induction over the "
